@@ -105,6 +105,8 @@ class Report(object):
         self.t0 = time.time()
         self.extra = {}
         self.informational = []
+        # guards of the analysis' own model, run after the rules
+        self.deferred = []
 
     def rule(self, rid, title, floor=1):
         r = Rule(self, rid, title, floor)
@@ -136,11 +138,18 @@ class Report(object):
                 known[e['key']] = e
         return known, fixed
 
-    def finish(self):
-        """Print the verdict, write evidence, return the exit status."""
+    def new_findings(self):
+        known, _fixed = self._load_known()
+        return [f for f in self.findings if f['key'] not in known]
+
+    def finish(self, partial=None):
+        """Print the verdict, write evidence, return the exit status.
+        partial: the analysis stopped with this error after the findings
+        so far were established; they are reported, nothing else is
+        claimed (no evidence is written)"""
         # floors first: a rule that matches (almost) nothing must not pass
         for r in self.rules:
-            if r.instances < r.floor:
+            if partial is None and r.instances < r.floor:
                 raise AnalysisError(
                     'rule %s (%s): %d instances found, hand-confirmed floor '
                     'is %d - refusing to pass vacuously' % (
@@ -148,7 +157,13 @@ class Report(object):
         known, _fixed = self._load_known()
         new = []
         seen_known = []
+        reported = set()
         for f in self.findings:
+            # one report per finding key (a key names a rule and a
+            # construct; further instances add nothing)
+            if f['key'] in reported and f['key'] not in known:
+                continue
+            reported.add(f['key'])
             if f['key'] in known:
                 seen_known.append((f, known[f['key']]))
             else:
@@ -195,7 +210,12 @@ class Report(object):
                     print('        witness: %s' % (f['witness'],))
                 print('VIOLATION property=%s replay=%s' % (self.prop, path))
             status = 1
-        self._write_evidence(total, disch, new, seen_known)
+        if partial is None:
+            self._write_evidence(total, disch, new, seen_known)
+        else:
+            print('ANALYSIS-INCOMPLETE property=%s the analysis stopped after '
+                  'the violation(s) above were established: %s' % (
+                      self.prop, partial))
         print('== %s: %d obligations, %d discharged, %d known finding(s), '
               '%d new violation(s), %.2fs' % (
                   self.prop, total, disch, len(seen_known), len(new),
